@@ -11,8 +11,26 @@
   cipher) and marks the connection verified (`upgrades`).
 -/
 import Proofs.PairVerifySym
+import Proofs.HandlerConsts
 namespace Hap.PV
 open Hap Hap.Tlv
+
+/-- The pair-verify labels, nonces and TLV constants found in pyhap/hap_handler.py *now*
+    (regenerated on every run) are the ones the HAP specification prescribes and the reference
+    controller uses independently. -/
+theorem C02_protocol_constants :
+    Hap.Gen.Handler.h_PVERIFY_1_SALT = Hap.Gen.Handler.ascii "Pair-Verify-Encrypt-Salt" ∧
+    Hap.Gen.Handler.h_PVERIFY_1_INFO = Hap.Gen.Handler.ascii "Pair-Verify-Encrypt-Info" ∧
+    Hap.Gen.Handler.h_PVERIFY_1_NONCE = [0, 0, 0, 0] ++ Hap.Gen.Handler.ascii "PV-Msg02" ∧
+    Hap.Gen.Handler.h_PVERIFY_2_NONCE = [0, 0, 0, 0] ++ Hap.Gen.Handler.ascii "PV-Msg03" ∧
+    Hap.Gen.Handler.tag_USERNAME = [1] ∧ Hap.Gen.Handler.tag_PUBLIC_KEY = [3] ∧
+    Hap.Gen.Handler.tag_ENCRYPTED_DATA = [5] ∧ Hap.Gen.Handler.tag_SEQUENCE_NUM = [6] ∧
+    Hap.Gen.Handler.tag_ERROR_CODE = [7] ∧ Hap.Gen.Handler.tag_PROOF = [10] ∧
+    Hap.Gen.Handler.err_AUTHENTICATION = [2] :=
+  ⟨Hap.Gen.Handler.pair_verify_labels.1, Hap.Gen.Handler.pair_verify_labels.2.1,
+   Hap.Gen.Handler.pair_verify_labels.2.2.1, Hap.Gen.Handler.pair_verify_labels.2.2.2,
+   by decide, by decide, by decide, by decide, by decide, by decide, by decide⟩
+
 
 /-- **The iff.** For every history `ops` of pair / unpair / pair-verify / GET steps over any
     number of connections (from the initial system), a further request `body` on connection `c`
